@@ -30,6 +30,16 @@ Ext(kw, hasArg, v, subs) == Node(C(kw), hasArg, v, subs)
 Terms == <<X("x:a"), XA("x:b-c", ArgPool[1]), XA("x:b-c", ArgPool[2]), XA("description", ArgPool[14]), XA("x:b-c", ArgPool[6])>>
 NT == IF Thorough THEN 5 ELSE 3
 IsDesc(n) == n.kw = C("description")
+\* the same multi-line double-quoted source text several times in one module (same and different statements, different
+\* nesting depths): each occurrence stands for the decoding of its own source form at its own quote column, so the
+\* occurrences have different values, and a layout that moves one of them changes that one only
+RawText == C("a") \o <<LF>> \o Spaces(6) \o C("b") \o <<LF>> \o Spaces(30) \o C("c") \o <<LF, TAB>> \o C("d")
+RawA == <<[q |-> "d", src |-> RawText]>>
+RawB == <<[q |-> "s", src |-> C("p q")], [q |-> "d", src |-> RawText], [q |-> "d", src |-> RawText]>>
+RawBodies ==
+  {<<Cont(Ids[1], <<RawNode(C("description"), RawA, << >>), RawNode(C("x:b-c"), RawA, << >>),
+                    Cont(Ids[2], <<RawNode(C("description"), RawA, << >>)>>)>>), RawNode(C("x:b-c"), RawA, << >>)>>,
+   <<RawNode(C("x:b-c"), RawA, << >>), RawNode(C("x:b-c"), RawA, << >>), RawNode(C("x:d"), RawB, <<RawNode(C("x:b-c"), RawA, << >>)>>)>>}
 SmallBodies ==
   {<<Terms[i]>> : i \in {1, 2, 3, 5}}
   \cup {<<Ext("x:d", h, ArgPool[3], <<Terms[i]>>)>> : h \in BOOLEAN, i \in 1..NT}
@@ -38,6 +48,7 @@ SmallBodies ==
   \cup {<<Cont(Ids[2], <<Terms[i], Terms[j]>>)>> : i \in 1..NT, j \in {1, 2}}
   \cup {<<Leaf(Ids[3], << >>)>>, <<Leaf(Ids[1], <<Terms[4], Terms[1]>>)>>, <<Cont(Ids[1], << >>), Leaf(Ids[2], << >>)>>,
         <<Cont(Ids[1], <<Cont(Ids[2], <<Leaf(Ids[3], <<Terms[2]>>)>>), Terms[1]>>), Terms[3]>>}
+  \cup RawBodies
 Small == SetToSeq(SmallBodies)
 
 RE(seq) == seq[RandomElement(1..Len(seq))]
@@ -66,7 +77,7 @@ Checked(src, L, its) == LET p == ParseItems(its, L.text) IN
 
 Vec(f, tid, src, L, feat, endPick) ==
   LET its == LexAll(L.text, Intended) IN
-  [fam |-> f, tid |-> tid, text |-> L.text, tree |-> L.tree, hasTree |-> TRUE, judged |-> AllJudged(L.tree), feat |-> feat,
+  [fam |-> f, tid |-> tid, text |-> L.text, tree |-> L.tree, hasTree |-> TRUE, judged |-> AllJudged(L.tree), feat |-> feat, layoutFree |-> ~HasRaw(src),
    wordThenComment |-> WordThenComment(its, L.text), lineCommentAtEnd |-> (endPick % Len(TrivEnd)) >= Len(TrivOpt), ok |-> Checked(src, L, its)]
 
 Layouts(f, tid, body) ==
